@@ -574,17 +574,13 @@ LAST_STATS = {}
 
 
 def classify_spec_diff(q, obs):
-    """known systematic differences between the code and the declarative specification"""
-    for gr in q['groups']:
-        if not gr['resources']:
-            if not gr['required'] and not gr['member_of']:
-                return 'A: resourceless group with only forbidden traits/aggregates or in_tree gets no provider'
-            if gr['in_tree'] is not None:
-                return 'B: in_tree of a resourceless group is ignored'
+    """known systematic differences between the code and the declarative specification, by stable key.
+    (the former classes A/B - resourceless groups - are repaired by 374fac3: a reappearance is UNCLASSIFIED)"""
     for gr in q['groups']:
         if gr['suffix'] == 0 and gr['in_tree'] is not None:
-            return ('C: in_tree on the unsuffixed group pins the anchor tree: sharing providers of that tree are '
-                    'not offered under other anchors')
+            # in_tree on the unsuffixed group pins the anchor tree: sharing providers of that tree are not
+            # offered under the other anchors they share with
+            return 'in-tree-pins-anchor'
     return 'UNCLASSIFIED'
 
 
@@ -655,6 +651,7 @@ def run(seed, n_states, n_queries, shard=20, workdir=None, verbose=True, keep=Fa
             except OSError:
                 pass
     allq = [(q, obs) for _b, cases in states for q, obs in cases]
+    counts500 = sum(1 for q, obs in allq if q['kind'] == 'cand' and obs == ('err', 500))
     cand = [(q, obs) for q, obs in allq if q['kind'] == 'cand']
     stats = {
         'states': len(states), 'cases': len(allq), 'candidate_queries': len(cand),
@@ -668,6 +665,9 @@ def run(seed, n_states, n_queries, shard=20, workdir=None, verbose=True, keep=Fa
         'codes': {CODES[c]: n for c, n in sorted(counts.items())},
         'model_vs_spec': {' / '.join(k): n for k, n in sorted(spec_counts.items())},
         'spec_difference_classes': spec_classes,
+        'named_classes': {'in-tree-pins-anchor': spec_classes.get('in-tree-pins-anchor', 0),
+                          'nested-sharing-keyerror': counts500,
+                          'anchor-dedup': counts.get(2, 0) + counts.get(4, 0)},
         'known_finding_anchor_dedup_cases': counts.get(2, 0) + counts.get(4, 0),
         'multi_group': sum(1 for q, _o in cand if len(q['groups']) > 1),
         'versions': len(set(q['v'] for q, _o in allq)),
@@ -693,6 +693,31 @@ def run(seed, n_states, n_queries, shard=20, workdir=None, verbose=True, keep=Fa
     LAST_STATS.clear()
     LAST_STATS.update(stats)
     return bad
+
+
+def replay_witnesses(path=None):
+    """replay spec/c03_witnesses.json on the real application: every `expected_missing` candidate is a
+    candidate of the specification that the implementation must (still) fail to return.
+    -> {key: True if the finding is still present}"""
+    path = path or os.path.join(os.path.dirname(coqrun.COQDIR), 'spec', 'c03_witnesses.json')
+    wit = json.load(open(path))
+    out = {}
+    for key, w in wit.items():
+        if key.startswith('_'):
+            continue
+        app = impl.App()
+        for op in w['ops']:
+            r, _obs = hist.observe(app, tuple(op))
+            assert r.status < 300, (key, op, r)
+        b = Built([tuple(op) for op in w['ops']], ops.canon_dump(app.raw_dump()), [0, 1, 2])
+        r = app.request('GET', w['http'], version=w['version'], headers={'x-roles': 'admin,service'})
+        assert r.status == 200, (key, r)
+        got, _sums = canon_candidates(r.json, b, int(w['version'].split('.')[1]))
+        spec = sorted(w['spec_candidates'])
+        missing = [c for c in spec if c not in got]
+        out[key] = bool(missing) and all(c in spec for c in got)
+        app.close()
+    return out
 
 
 if __name__ == '__main__':
